@@ -173,6 +173,19 @@ CHECKS = {
         "(32 value sets per seed). 'Derivable' means derivable in the graph documented for that origin.",
         "4/C02",
     ),
+    "C14": (
+        "Hypothesis-generated values / documents / builder programs (structure-bearing string fragments) parsed by an "
+        "independent CIF 1.1 parser; round-trip comparison with expectations computed from the inputs",
+        "Generated-input search with a parse-back oracle: every written document must tokenise under the CIF 1.1 grammar "
+        "(independent parser) and yield exactly the supplied tags, values (strings up to surrounding blanks, numbers "
+        "re-read exactly, value(su) to printed precision, _su columns = sqrt(variance)), loop shapes and order; comments "
+        "only in the comment channel; role ids refer to exactly one author; ASCII only. Builder programs are generated "
+        "as call sequences incl. copy and repeated save.",
+        "Trusted: vf/ref/cif.py (self-tested on valid and invalid documents). Values <= 200 chars (no line wrapping by "
+        "the writer); any ASCII escape of non-ASCII text is accepted; unrepresentable strings may be refused with "
+        "ValueError; block names non-empty.",
+        "4/C14",
+    ),
 }
 
 NOT_YET = "check not built yet (work in progress; every property is planned to be claimed, see DESIGN.md section 4)"
